@@ -975,3 +975,75 @@ func BadFlagNeverSet(d *D2, files map[string][]byte) error {
 	d.prev = v
 	return nil
 }
+
+// ---- phase helpers whose flag result the caller branches on; combined errors ----------
+
+func retiredOf(d *D) (string, bool) {
+	if d.prev == nil {
+		return "", false
+	}
+	return *d.prev, true
+}
+
+func retiredWrong(d *D) (string, bool) {
+	if d.prev != nil {
+		return "", false
+	}
+	return "", true
+}
+
+func ensure(dirs ...string) error {
+	for _, dir := range dirs {
+		if err := os.MkdirAll(dir, 0o755); err != nil {
+			return err
+		}
+	}
+	return nil
+}
+
+// GoodFlagTupleHelper: directories through a variadic helper, previous version through a
+// (dir, ok) helper whose flag the caller branches on.
+func GoodFlagTupleHelper(d *D, files map[string][]byte) error {
+	v := fresh(d)
+	if err := ensure(d.base, v); err != nil {
+		return err
+	}
+	for n, b := range files {
+		if err := os.WriteFile(filepath.Join(v, n), b, 0o600); err != nil {
+			return err
+		}
+	}
+	if err := swap(d, v); err != nil {
+		return err
+	}
+	if old, ok := retiredOf(d); ok {
+		if err := os.RemoveAll(old); err != nil {
+			return err
+		}
+	}
+	d.prev = &v
+	return nil
+}
+
+// BadFlagTupleHelperInverted: the helper says "none" exactly when there is a previous version.
+func BadFlagTupleHelperInverted(d *D, files map[string][]byte) error {
+	v := fresh(d)
+	if err := ensure(d.base, v); err != nil {
+		return err
+	}
+	for n, b := range files {
+		if err := os.WriteFile(filepath.Join(v, n), b, 0o600); err != nil {
+			return err
+		}
+	}
+	if err := swap(d, v); err != nil {
+		return err
+	}
+	if old, ok := retiredWrong(d); ok {
+		if err := os.RemoveAll(old); err != nil {
+			return err
+		}
+	}
+	d.prev = &v
+	return nil
+}
